@@ -80,6 +80,8 @@ def oracleLine (pid kind : String) (args : List String) (go : String) : String :
   | "C06", "prog", [steps] | "C07", "prog", [steps] | "C12", "prog", [steps] | "C13", "prog", [steps] =>
     walkLayout pid steps go
   | "C11", "prog", [steps] => walkPara steps go
+  | "C17", "prog", [steps] => optionsVerdict steps go
+  | "C17", "withdefaults", [_] => withDefaultsVerdict go
   | "C14", "prog", [steps] => walkComposite pid "twocol" steps go
   | "C15", "prog", [steps] => walkComposite pid "deftable" steps go
   | "C16", "prog", [steps] => walkComposite pid "table" steps go
